@@ -13,13 +13,22 @@ StrV(x)    == [t |-> "s", s |-> x, ip |-> "", port |-> 0]
 AddrV(a)   == [t |-> "a", s |-> "", ip |-> a.ip, port |-> a.port]
 EmptyAddr  == [t |-> "a", s |-> "", ip |-> "", port |-> 0]
 
-Builtin == {"address_in", "address_out", "callsign"}
+\* every data member Repeater.__init__ creates (id and logger are identity / plumbing, not data)
+Builtin == {"address_in", "address_out", "address_nat", "callsign", "serial", "dmr_id", "snmp_enabled", "nat_enabled"}
+
+\* the constructor defaults, as the harness projects them (numbers and booleans as their text)
+Default(k, a) ==
+  CASE k = "address_in" -> AddrV(a)
+    [] k \in {"address_out", "address_nat"} -> EmptyAddr
+    [] k = "dmr_id" -> NoneV                        \* create_repeater passes dmr_id=None
+    [] k = "snmp_enabled" -> StrV("True")
+    [] k = "nat_enabled" -> StrV("False")
+    [] OTHER -> StrV("")
 
 \* a record: id = creation index (stands for the UUID), f = built-in members, attrs = dynamic
 NewRec(n, a, keys) ==
   [id |-> n,
-   f |-> [k \in Builtin |-> IF k = "address_in" THEN AddrV(a)
-                            ELSE IF k = "address_out" THEN EmptyAddr ELSE StrV("")],
+   f |-> [k \in Builtin |-> Default(k, a)],
    attrs |-> [k \in keys |-> NoneV]]
 
 \* Repeater.patch: setattr for members, attr() for the rest, None ignored there
